@@ -5,7 +5,7 @@
 From Coq Require Import List Arith Permutation ZArith.
 From Coq Require Import Sorted.
 From TLV Require Import Base.Shape Base.PyList Base.Tensor Model.Base Model.BaseExt Model.BasePy Model.BasePyCore
-  Proofs.BaseProofs Proofs.BaseProofs2 Proofs.BaseProofs3 Proofs.BaseProofs4 Proofs.BaseProofs5 Proofs.BaseProofs6 Proofs.BaseProofs7 Proofs.BaseProofs8 Proofs.BaseProofs9 Proofs.BaseProofs10 Proofs.BaseProofs11 Proofs.BaseProofs12 Proofs.BaseProofs13 Proofs.BaseProofs14 Proofs.BaseProofs15 Proofs.BaseProofs16.
+  Proofs.BaseProofs Proofs.BaseProofs2 Proofs.BaseProofs3 Proofs.BaseProofs4 Proofs.BaseProofs5 Proofs.BaseProofs6 Proofs.BaseProofs7 Proofs.BaseProofs8 Proofs.BaseProofs9 Proofs.BaseProofs10 Proofs.BaseProofs11 Proofs.BaseProofs12 Proofs.BaseProofs13 Proofs.BaseProofs14 Proofs.BaseProofs15 Proofs.BaseProofs16 Proofs.BaseProofs17.
 Import ListNotations.
 
 Theorem C01_fold_unfold : forall (A : Type) (d : A) (t : tensor A) (m : nat),
@@ -572,6 +572,22 @@ Theorem C01_g_typed_vec_roundtrip : forall (A : Type) (d : A) (D : Type) (a v : 
   wf (arr a) -> g_tensor_to_vec (typed d D) a = Ok v -> g_vec_to_tensor (typed d D) v (map Z.of_nat (shape (arr a))) = Ok a.
 Proof. exact @g_typed_vec_roundtrip. Qed.
 Print Assumptions C01_g_typed_vec_roundtrip.
+
+(* "no entry is rounded": on the NumPy backend all ten statement-level functions (signed modes and skips) commute with every
+   entry-wise map f : A -> B - the result cannot depend on, or alter, a value *)
+Theorem C01_g_naturality : forall (A B : Type) (f : A -> B) (d : A) (t : tensor A),
+  g_tensor_to_vec (plain (f d)) (tmap f t) = rmap (tmap f) (g_tensor_to_vec (plain d) t) /\
+  (forall s, g_vec_to_tensor (plain (f d)) (tmap f t) s = rmap (tmap f) (g_vec_to_tensor (plain d) t s)) /\
+  (forall m, g_unfold (plain (f d)) (tmap f t) m = rmap (tmap f) (g_unfold (plain d) t m)) /\
+  (forall m s, g_fold (plain (f d)) (tmap f t) m s = rmap (tmap f) (g_fold (plain d) t m s)) /\
+  (forall m sb se rav, g_partial_unfold (plain (f d)) (tmap f t) m sb se rav = rmap (tmap f) (g_partial_unfold (plain d) t m sb se rav)) /\
+  (forall m s sb se, g_partial_fold (plain (f d)) (tmap f t) m s sb se = rmap (tmap f) (g_partial_fold (plain d) t m s sb se)) /\
+  (forall sb se, g_partial_tensor_to_vec (plain (f d)) (tmap f t) sb se = rmap (tmap f) (g_partial_tensor_to_vec (plain d) t sb se)) /\
+  (forall s sb se, g_partial_vec_to_tensor (plain (f d)) (tmap f t) s sb se = rmap (tmap f) (g_partial_vec_to_tensor (plain d) t s sb se)) /\
+  (forall rows cols, g_matricize (plain (f d)) (tmap f t) rows cols = rmap (tmap f) (g_matricize (plain d) t rows cols)) /\
+  (forall a b, g_moveaxis_generic (plain (f d)) (tmap f t) a b = rmap (tmap f) (g_moveaxis_generic (plain d) t a b)).
+Proof. exact @g_natural. Qed.
+Print Assumptions C01_g_naturality.
 
 Example C01_nonvacuous_typed :
   let a := mkarr 5 (mk [2;3] (seq 0 6)) in
